@@ -61,6 +61,7 @@ DEFAULT_KNOBS = dict(
     p_multi_group_name=0.0,
     p_attach_style=0.0,
     p_awaitable=0.0,
+    p_prop_guard=0.0,
 )
 
 
@@ -289,6 +290,13 @@ def gen_program(rnd, k, idx=0, name=None):
                                    "not {a} or {b}"])
                 t.setdefault("cond", []).append(form.format(a=a, b=b))
     assign_styles(rnd, prog, k["p_attach_style"])
+    if k["p_prop_guard"] > 0:
+        # guards given as the name of a PROPERTY (no call, no arguments): evaluated by reading it
+        for c in sorted(prog["cbs"]):
+            m = prog["cbs"][c]
+            if m["group"] in ("cond", "unless") and not m.get("style") and rnd.random() < k["p_prop_guard"]:
+                m["prop"] = True
+                m["sig"] = []
     return prog
 
 
@@ -400,6 +408,9 @@ def set_async(rnd, prog, mode, must_async=()):
         for c in keys:
             if cbs[c]["group"] not in ("cond", "unless", "validators"):
                 cbs[c]["async"] = True
+    for c in keys:
+        if cbs[c].get("prop"):
+            cbs[c].pop("async", None)  # a property cannot be a coroutine function
     if any(m.get("async") for m in cbs.values()):
         for c in must_async:
             cbs[c]["async"] = True
